@@ -140,6 +140,45 @@ class Replayer:
             calls.append(rec4)
         return {"d": dabs, "calls": calls}
 
+    def family(self, d0, walk):
+        """Long instances (spirals): d0 is the family's seed, walk a list of abstract diagrams each one
+        admissible interchange away from the previous (a TLC behaviour of MC_Spiral).  Calls:
+        normal_form(seed); the interchanges of the walk; normalize + normal_form of the end point,
+        the latter compared with the seed's normal form (same class) and with the last yielded step."""
+        real = self.A.build(d0, 1)
+        calls = []
+        nf0 = {}
+        for l in (0, 1):
+            rec, _ = self.observe(real, call("normal_form", g=l))
+            calls.append(rec)
+            nf0[l] = len(calls)
+        cur, cur_idx, cur_abs = real, 0, d0
+        for nxt in walk:
+            pos = [k for k in range(len(nxt["boxes"])) if nxt["boxes"][k] != cur_abs["boxes"][k]
+                   or nxt["offs"][k] != cur_abs["offs"][k]]
+            if not pos:
+                continue
+            pidx = pos[0]
+            done = False
+            for l in (0, 1):
+                rec, res = self.observe(cur, call("interchange", i=pidx, j=pidx + 1, g=l, p=cur_idx))
+                if res is not None and {k: rec["res"][k] for k in ("dom", "cod", "boxes", "offs")} == nxt:
+                    calls.append(rec)
+                    cur, cur_idx, cur_abs, done = res, len(calls), nxt, True
+                    break
+            if not done:
+                calls.append(rec)      # judged by J05; the walk stops here
+                break
+        for l in (0, 1):
+            rec, _ = self.observe(cur, call("normalize", g=l, p=cur_idx))
+            calls.append(rec)
+            a = len(calls)
+            rec2, _ = self.observe(cur, call("normal_form", g=l, p=cur_idx, ref=a))
+            calls.append(rec2)
+            rec3, _ = self.observe(cur, call("normal_form", g=l, p=cur_idx, ref=nf0[l]))
+            calls.append(rec3)
+        return {"d": d0, "calls": calls}
+
     def chain(self, d0, steps):
         """Replay one simulated behaviour: steps = list of call records (from `last`)."""
         real = self.A.build(d0, 1)
@@ -164,7 +203,10 @@ def _worker(args):
     n = 0
     with open(out_path, "w") as f:
         for k, st in enumerate(states):
-            if "chain" in st:
+            if "walk" in st:
+                R.max_steps = 2000
+                h = R.family(st["d"], st["walk"])
+            elif "chain" in st:
                 h = R.chain(st["d"], st["chain"])
             else:
                 h = R.history(st["d"], rnd, how=k % 2, full=full)
